@@ -23,6 +23,8 @@ os.environ.setdefault("PYTHONHASHSEED", "0")
 for _v in ("OPENBLAS_NUM_THREADS", "OMP_NUM_THREADS", "MKL_NUM_THREADS", "NUMBA_NUM_THREADS"):
     os.environ.setdefault(_v, "1")
 os.environ.setdefault("GLOTARAN_PYGLOTARAN_VERIF", "1")
+# the watchdog forks workers that have already run numba kernels: the OpenMP layer aborts in that situation
+os.environ.setdefault("NUMBA_THREADING_LAYER", "workqueue")
 if os.environ.get("VERIF_REPO"):
     sys.path.insert(0, os.environ["VERIF_REPO"])
 
